@@ -551,3 +551,6 @@ def run(ctx):
     from rules import accessors as _acc
     _acc.rule_accessors(ctx, "C08")
     _acc.rule_so_name(ctx)
+    # the stream this property talks about is all-or-nothing: generate_dump succeeds only if its writer returned Ok (rules/c01.py rule_hard_streams)
+    from rules import c01 as _c01h
+    _c01h.rule_hard_streams(ctx, R="C08/hard-streams", only=('sections::mappings::write',))
